@@ -573,6 +573,10 @@ impl<'a> Sc<'a> {
             let res = match res {
                 Err(p) => {
                     v.push(Violation::new("C03.a", &format!("panic@{}", panic_site(&p)), format!("dlt_message(filter={}, storage={}) panicked at buffer offset {}: {}", self.filter.is_some(), self.storage, self.pos, p)));
+                    if focus == Focus::C06 {
+                        // a parser that panics on the way through junk recovers nothing behind it
+                        v.push(Violation::new("C06.c", &format!("panic@{}", panic_site(&p)), format!("the stream is not recovered: dlt_message(storage=true) panicked at buffer offset {} with {} bytes buffered: {}", self.pos, self.buf.len(), p)));
+                    }
                     self.stopped = true;
                     return;
                 }
